@@ -478,7 +478,7 @@ func RunWorker(o Options) int {
 				continue
 			}
 			runCase(s, idx, false)
-			if w.evals&1023 == 0 && time.Since(last) > 3*time.Second {
+			if time.Since(last) > 2*time.Second {
 				w.snapshot(false)
 				last = time.Now()
 			}
